@@ -74,6 +74,10 @@ def run(ctx: Context) -> None:
     from ..calib import CalibrateView
     from . import c05
     ctx.rule(c05.r1_seed_guard, CalibrateView(ctx.prog), "S")
+    # "the agent learns exactly once for each batch it chose" starts in calibrate: the outcome of every executed batch is handed to the scheduler
+    # (update on every iteration, once) - the product analysis takes the calibrate loop as it finds it, this rule pins it (shared with C09-R1)
+    from . import c09
+    ctx.rule(c09.r1_calibrate_pairing)
     thorough = ctx.tier == "thorough"
     pl = plans(3, 3) if thorough else plans(2, 2)
     ctx.rule(run_product, ("C10", "C09"), False, pl, "fault-free")
